@@ -57,7 +57,7 @@ def set_source(r):
     for i in range(k):
         pat = ("W%d " % i) + r.choice(SET_POOL)
         prio = r.choice(["", "", "PRIO 3 ", "PRIO 9 "])
-        lines.append("DEFINE %s%s AS done%d END DEFINE" % (prio, pat, i))
+        lines.append("DEFINE %s%s%sAS%sdone%d END DEFINE" % (prio, pat, r.choice([" ", "\n"]), r.choice([" ", "\n"]), i))
         use = []
         for s_ in pat.split(" "):
             use += FILL.get(s_, [s_])
@@ -111,7 +111,7 @@ def source(p):
     use = []
     for s in p:
         use += FILL.get(s, [s])
-    text = "DEFINE\n" + " ".join(p) + " AS zz END DEFINE\nDEFINE PRIO 5 OTHERMAC AS other_applied END DEFINE\nq1 " + " ".join(use) + " q2 OTHERMAC"
+    text = "DEFINE\n" + " ".join(p) + "\nAS\nzz END DEFINE\nDEFINE PRIO 5 OTHERMAC AS other_applied END DEFINE\nq1 " + " ".join(use) + " q2 OTHERMAC"
     return text
 
 
